@@ -144,24 +144,54 @@ def _xlsx_anchor(m, a, rid):
     return f'<xdr:oneCellAnchor>{frm}<xdr:ext cx="{cx}" cy="{cy}"/>{pic}</xdr:oneCellAnchor>'
 
 
+def _xlsx_drawing_parts(data: bytes) -> list:
+    """Drawing part of every sheet in WORKBOOK order (None = the sheet has no drawing), read from the package
+    the shared writer produced: workbook.xml -> workbook relationships -> sheet relationships.  The numbers in
+    the part names mean nothing (the shared writer numbers the files in reverse on purpose)."""
+    import posixpath
+    import re
+    z = zipfile.ZipFile(io.BytesIO(data))
+    wb = z.read("xl/workbook.xml").decode()
+    rels = dict(re.findall(r'<Relationship Id="([^"]+)" Type="[^"]+" Target="([^"]+)"', z.read("xl/_rels/workbook.xml.rels").decode()))
+    out = []
+    for rid in re.findall(r'<sheet [^>]*r:id="([^"]+)"', wb):
+        sheet = posixpath.normpath("xl/" + rels[rid])
+        rp = posixpath.dirname(sheet) + "/_rels/" + posixpath.basename(sheet) + ".rels"
+        if rp not in z.namelist():
+            out.append(None)
+            continue
+        m = re.search(r'Type="[^"]+/drawing" Target="([^"]+)"', z.read(rp).decode())
+        out.append(posixpath.normpath(posixpath.dirname(sheet) + "/" + m.group(1)) if m else None)
+    return out
+
+
 def build_xlsx(conc) -> bytes:
     rids = _rids(conc, True)
     sheets, add = [], media_files(conc)
+    per_unit = {}
     for u in range(1, conc["nunits"] + 1):
         mine = [(i, a) for i, a in enumerate(conc["anchors"]) if a["unit"] == u]
+        per_unit[u] = mine
         sheets.append({"name": word(900 + u), "name_id": 900 + u, "rows": [[["s", 910 + u]]],
                        "images": [{"target": "placeholder", "part": None, "data": None}] if mine else []})
-        if mine:
-            anchors = "".join(_xlsx_anchor(m, a, rids[i]) for m, (i, a) in enumerate(mine, start=1))
-            rels = "".join(_rel_xml(rids[i], own_target(a), i + 1) for i, a in mine if own_target(a) is not None)
-            add[f"xl/drawings/drawing{u}.xml"] = (
-                '<?xml version="1.0"?><xdr:wsDr xmlns:xdr="http://schemas.openxmlformats.org/drawingml/2006/'
-                'spreadsheetDrawing" xmlns:a="http://schemas.openxmlformats.org/drawingml/2006/main" '
-                f'xmlns:r="{wxlsx.REL}">{anchors}</xdr:wsDr>').encode()
-            add[f"xl/drawings/_rels/drawing{u}.xml.rels"] = (
-                '<?xml version="1.0"?><Relationships xmlns="http://schemas.openxmlformats.org/package/2006/relationships">'
-                f"{rels}</Relationships>").encode()
-    return zip_patch(wxlsx.write_xlsx({"kind": "book", "sheets": sheets}), add=add)
+    base = wxlsx.write_xlsx({"kind": "book", "sheets": sheets})
+    drawings = _xlsx_drawing_parts(base)
+    for u, mine in per_unit.items():
+        if not mine:
+            continue
+        dpart = drawings[u - 1]
+        if dpart is None or not dpart.startswith("xl/drawings/"):
+            raise ValueError(f"shared xlsx writer: no drawing part for sheet {u}")
+        anchors = "".join(_xlsx_anchor(m, a, rids[i]) for m, (i, a) in enumerate(mine, start=1))
+        rels = "".join(_rel_xml(rids[i], own_target(a), i + 1) for i, a in mine if own_target(a) is not None)
+        add[dpart] = (
+            '<?xml version="1.0"?><xdr:wsDr xmlns:xdr="http://schemas.openxmlformats.org/drawingml/2006/'
+            'spreadsheetDrawing" xmlns:a="http://schemas.openxmlformats.org/drawingml/2006/main" '
+            f'xmlns:r="{wxlsx.REL}">{anchors}</xdr:wsDr>').encode()
+        add["xl/drawings/_rels/" + dpart.rsplit("/", 1)[1] + ".rels"] = (
+            '<?xml version="1.0"?><Relationships xmlns="http://schemas.openxmlformats.org/package/2006/relationships">'
+            f"{rels}</Relationships>").encode()
+    return zip_patch(base, add=add)
 
 
 # ----------------------------------------------------------------------------- ODF
